@@ -68,7 +68,7 @@ def variant(prog, k):
     """A semantically equivalent rewrite of the program."""
     v = copy.deepcopy(prog)
     nested = any(c['ctx'] in progs.NESTED_CTXS for c in prog['calls'])
-    rebinding = ('comp_rebinds_args', 'comp_rebinds_kwargs', 'loop_rebinds_args', 'loop_rebinds_kwargs')      # these contexts change what the star denotes
+    rebinding = ('comp_rebinds_args', 'comp_rebinds_kwargs', 'genexp_rebinds_args', 'genexp_rebinds_kwargs', 'loop_rebinds_args', 'loop_rebinds_kwargs')      # these contexts change what the star denotes
     flat = [c for c in progs.CTXS if c not in progs.NESTED_CTXS and c != 'lambda_default' and c not in rebinding]
     for i, c in enumerate(v['calls']):
         if c['ctx'] in rebinding:
@@ -191,6 +191,10 @@ def run(ctx):
               for s in ctx.shard_seeds(16)]
     # nested scopes with taint statements between the definition and the call of the nested function
     tasks += [(s + 1100, n // 64, {'ctxs': progs.NESTED_CTXS, 'routes': ('global', 'closure', 'self_method', 'attr'), 'max_calls': 2})
+              for s in ctx.shard_seeds(16)]
+    # several calls through one generic helper that is handed the callee (positionally or by keyword), callees that go
+    # through the same helper themselves
+    tasks += [(s + 1300, n // 64, {'routes': ('via_helper', 'via_helper_kw'), 'allow_taints': False, 'ctxs': ('return', 'assign', 'if', 'nested')})
               for s in ctx.shard_seeds(16)]
     total.merge(ctx.pmap(shard_hyp, tasks))
     return total
